@@ -68,6 +68,9 @@ type Tree struct {
 	OnCall func(n int)
 	// Debug runs the machine with the library's debug trace switched on.
 	Debug bool
+	// NilValues: GetValue answers (nil, nil) — a tree that has nothing to say about a node and says so without
+	// an error.
+	NilValues bool
 }
 
 type entry struct {
@@ -110,6 +113,9 @@ func (t *Tree) answer(path string) xp.Answer {
 func (e *entry) GetValue() (xpath.Datum, error) {
 	if err := e.t.hit("GetValue " + e.path); err != nil {
 		return nil, err
+	}
+	if e.t.NilValues {
+		return nil, nil
 	}
 	a := e.t.answer(e.path)
 	switch a.Kind {
